@@ -78,13 +78,13 @@ Boundary == <<
   << LT("A", "int16", "B", "B"), L("B", "int16"), LT("C", "int16", "A", "A"), L("D", "int16") >>
 >>
 BoundarySet == {Boundary[i] : i \in 1..Len(Boundary)}
-\* hseq only (C03; the optics generators have no values for these types): two different defined types that print alike -
-\* the function-local `Twin` and the package-level `Twin` (alias PkgTwin) - the wanted one not being the first; one of them only
+\* hseq and the lens derivations (C01-C03; not the composed optics): two different defined types that print alike -
+\* the function-local `Same` and the package-level `Same` (alias PkgSame) - the wanted one not being the first; one of them only
 BoundaryHseq == <<
-  << L("A", "PkgTwin"), L("B", "Twin"), L("C", "string"), EV("E1", << L("D", "Twin"), L("F", "PkgTwin") >>) >>,
-  << L("A", "Twin"), L("B", "PkgTwin"), L("C", "int8") >>,
-  << L("A", "int8"), L("B", "PkgTwin"), L("C", "string") >>,
-  << L("A", "Twin"), EV("E1", << L("B", "string") >>) >>
+  << L("A", "PkgSame"), L("B", "Same"), L("C", "string"), EV("E1", << L("D", "Same"), L("F", "PkgSame") >>) >>,
+  << L("A", "Same"), L("B", "PkgSame"), L("C", "int8") >>,
+  << L("A", "int8"), L("B", "PkgSame"), L("C", "string") >>,
+  << L("A", "Same"), EV("E1", << L("B", "string") >>) >>
 >>
 BoundarySetHseq == BoundarySet \cup {BoundaryHseq[i] : i \in 1..Len(BoundaryHseq)}
 ====
